@@ -115,6 +115,39 @@ type protoArgs struct {
 	Conns    []string           `json:"conns"`   // connections that exist before the session starts
 	Script   []protoDgram       `json:"script"`
 	CloseEnd bool               `json:"close_end"` // end the transport after the script (EOF)
+	// Pre: an earlier session on the same backend (same BackendInfo) that has gone through its whole script — and stays
+	// connected — before the session under test starts
+	Pre []protoDgram `json:"pre"`
+}
+
+// protoAutoSession hands out its script without waiting for anybody, then stays silent
+type protoAutoSession struct {
+	mu     sync.Mutex
+	script [][]byte
+	idx    int
+	ctx    context.Context
+	done   chan struct{} // closed when the whole script has been taken
+	once   sync.Once
+}
+
+func (p *protoAutoSession) Send([]byte) error { return nil }
+func (p *protoAutoSession) Close() error      { return nil }
+func (p *protoAutoSession) Recv(d time.Duration) ([]byte, error) {
+	p.mu.Lock()
+	if p.idx < len(p.script) {
+		b := p.script[p.idx]
+		p.idx++
+		p.mu.Unlock()
+		return b, nil
+	}
+	p.mu.Unlock()
+	p.once.Do(func() { close(p.done) })
+	select {
+	case <-p.ctx.Done():
+		return nil, io.EOF
+	case <-time.After(d):
+		return nil, ErrTimeout
+	}
 }
 
 type protoSession struct {
@@ -209,6 +242,23 @@ func protoApply(op string, raw json.RawMessage) interface{} {
 	}
 	ctx, cancelSess := context.WithCancel(s.context)
 	defer cancelSess()
+	if len(a.Pre) > 0 {
+		var pw [][]byte
+		for _, d := range a.Pre {
+			pw = append(pw, verifUnhex(d.Raw))
+		}
+		pw = append(pw, nop, nop)
+		ps := &protoAutoSession{script: pw, ctx: ctx, done: make(chan struct{})}
+		go func() {
+			defer func() { _ = recover() }()
+			_ = s.runProtocol(ctx, ps, bi)
+		}()
+		select {
+		case <-ps.done:
+		case <-time.After(5 * time.Second):
+		}
+		verifWaitParked("(*Netceptor).runProtocol")
+	}
 	sess := &protoSession{script: wire, calls: make(chan int), resume: make(chan struct{}), ctx: ctx, eof: make(chan struct{})}
 	type result struct {
 		err      error
@@ -563,6 +613,17 @@ func protoGen(v *verifRun) {
 			a.Conns = append(a.Conns, hx(peer)) // the announced ID is already connected
 		}
 		a.CloseEnd = v.rng.Intn(3) == 0
+		if v.rng.Intn(4) == 0 {
+			// an earlier peer of the same backend with a cost of its own
+			first := "first"
+			fc := []float64{5, 0.25}[v.rng.Intn(2)]
+			a.NodeCost[hx(first)] = fc
+			if a.Allowed != nil {
+				a.Allowed = append(a.Allowed, hx(first))
+			}
+			a.Pre = []protoDgram{protoRoute(protoUpdate(first, first, jObj())),
+				protoRoute(protoUpdate(first, first, jObj(jK(self, jNum(costLit(fc))))))}
+		}
 		effCost := a.Cost
 		if c, ok := a.NodeCost[hx(peer)]; ok {
 			effCost = c
